@@ -224,6 +224,14 @@ def run(ck, F):
     if not ntree:
         ck.fail(R6, 'rb_tree::container', 'no instantiation of rb_tree::container has a user-provided destructor: the nodes of a table are never released', loc=places_loc(F))
 
+    # live use writes inside live objects: the only raw storage the library fills by hand is the arena's
+    R8 = ck.rule('C19.arena-writes-in-bounds', 'a function that fills a header obtained from arena::allocate(A) writes the length field '
+                 'and data[0 .. A) only (affine comparison, valid for every length): no write lands in the next header or past the '
+                 'end of the pool block', floor=1)
+    import arena
+    for fid, loc, inst, ok, msg in arena.footprint(F):
+        ck.check(R8, inst, ok, msg, loc=loc, fn=fid)
+
     # the pool chain after an allocation: nothing that was reachable is lost, everything new is reachable
     R7 = ck.rule('C19.chain-preserved', 'on every path of arena::allocate (and of the constructor) the chain mem -> previous -> ... '
                  'reaches every block just obtained from operator new, still reaches the old head, and ends in the old tail: '
